@@ -9,6 +9,8 @@ decimal(b); `str::parse::<u8>` accepts every string of decimal digits whose valu
 `str::split('.')` == split_on; `to_string()` == the text `Display::fmt` writes.
 Theorem: for every code byte b, set_code(get_code text of b) stores class_of_u8(b), and the text is
 exactly four characters c '.' d d."""
+import re
+
 from vf.unit import Unit
 from . import common
 
@@ -147,10 +149,13 @@ def build(repo):
     u.before(SC, r'self\.code =', '''        proof {
             assert(class_code < 8 && detail_code < 32 ==> 0xF8u8 & class_code == 0 && 0xE0u8 & detail_code == 0 && (class_code << 5 | detail_code) == class_code * 32 + detail_code) by (bit_vector);
         }''')
-    # after both values are parsed (whatever their order), before the runtime assertions (whatever their order)
-    u.after(SC, r'let (?:class_code|detail_code) = [^;]*;', '''        proof {
-            assert(class_code < 8 && detail_code < 32 ==> 0xF8u8 & class_code == 0 && 0xE0u8 & detail_code == 0) by (bit_vector);
-        }''', nth=1, count=2)
+    # after both values are parsed (whatever their order), before the runtime assertions (whatever their order): one fact per
+    # assertion found in the code, about ITS expression - an assertion that could fire on a well-formed text fails its fact,
+    # one that is merely weaker or written differently does not
+    _s, _p, _bo, _bc = u._fn_span(SC)
+    _asserts = re.findall(r'assert\(((?:[^();]|\([^()]*\))*?) == 0\);', u.text[_bo:_bc])
+    _facts = ' '.join('assert(class_code < 8 && detail_code < 32 ==> (%s) == 0) by (bit_vector);' % a for a in _asserts)
+    u.after(SC, r'let (?:class_code|detail_code) = [^;]*;', '        proof { %s }' % _facts, nth=1, count=2)
     u.contract(GC, '        ensures r@ == dotted(u8_of_class(self.code))', props=PROPS)
     u.probe('theorem_dotted_roundtrip')
     u.finish(common.HEAD)
